@@ -677,7 +677,11 @@ C18Case genWalkCase(uint64_t runSeed, const TierCfg &cfg) {
         std::vector<Op> prog;
         int legs = (int)rng.range(1, 2);
         for (int l = 0; l < legs; l++)
-            for (auto &o : gen.walk((int)rng.range(20, cfg.tier == "thorough" ? 80 : 45))) prog.push_back(o);
+        {
+            // one walk in eight is long (150-400 calls): per-thread counters and adaptive heuristics need a streak
+            int n = rng.chance(0.125) ? (int)rng.range(150, 400) : (int)rng.range(20, cfg.tier == "thorough" ? 80 : 45);
+            for (auto &o : gen.walk(n)) prog.push_back(o);
+        }
         if (prog.empty()) prog.push_back(gen.anyOp(0));
         cs.progs.push_back(prog);
     }
